@@ -396,6 +396,18 @@ func c15DecoderCases(c *Ctx) []c15Case {
 			cases = append(cases, k)
 		}
 	}
+	// restart intervals that need the high byte of the DRI field (Ri >= 256), on images with
+	// more MCUs than the interval: 200x168 grey = 525 MCUs, 4:4:4 colour the same, 4:2:0 = 143
+	for _, rst := range []int{255, 256, 257, 300, 512} {
+		for _, comps := range []int{1, 3} {
+			k := c15Case{Src: "ref", W: 200, H: 168, Comps: comps, Content: "smooth", Seed: rng.U64(), Opt: defaultOpts(comps, 85)}
+			k.Opt.Restart = rst
+			if comps == 3 {
+				k.Opt.Sampling = "444"
+			}
+			cases = append(cases, k)
+		}
+	}
 	// sparse coefficient patterns (single basis functions at all 63 AC positions, pairs with
 	// row/column 7, 8-periodic stripes) from both independent encoders
 	for _, content := range []string{"basis", "basis2", "rowstripes", "colstripes"} {
